@@ -14,7 +14,8 @@ Inductive kind := KList | KTuple | KDict | KSet | KFrozen.
 
 (* keys of items as visit/enter see them: list/tuple/set items are keyed by
    their enumerate() index, dict items by their key; the root has key None *)
-Inductive key := KNone | KI (i : nat) | KT (t : nat).
+(* KS i is the string of digits str(i): get_path accepts it as a list index *)
+Inductive key := KNone | KI (i : nat) | KT (t : nat) | KS (i : nat).
 Definition path := list key.
 
 (* pure nested data: what a value looks like when identities are forgotten *)
@@ -44,6 +45,7 @@ Definition key_eqb (a b : key) : bool :=
   | KNone, KNone => true
   | KI x, KI y => Nat.eqb x y
   | KT x, KT y => Nat.eqb x y
+  | KS x, KS y => Nat.eqb x y
   | _, _ => false
   end.
 
@@ -53,10 +55,18 @@ Definition key_cmp (a b : key) : comparison :=
   | KNone, _ => Lt
   | _, KNone => Gt
   | KI x, KI y => Nat.compare x y
-  | KI _, KT _ => Lt
-  | KT _, KI _ => Gt
+  | KI _, _ => Lt
+  | _, KI _ => Gt
   | KT x, KT y => Nat.compare x y
+  | KT _, KS _ => Lt
+  | KS _, KT _ => Gt
+  | KS x, KS y => Nat.compare x y
   end.
+
+(* the position a path segment denotes in a list/tuple: an int, or (get_path's
+   int(seg) fallback) a string of digits *)
+Definition seg_index (seg : key) : option nat :=
+  match seg with KI i | KS i => Some i | _ => None end.
 
 Definition path_eqb : path -> path -> bool := list_eqb key_eqb.
 
